@@ -876,7 +876,9 @@ def run_e2e(ctx, stats, pairs, pair_lines, pair_cmp, impls, impl_lines, specs, m
                        {"operand": op, "interface": itf, "reference_go": a, "llgo": b})
             continue
         if kind == "generic-local":
-            ctx.report("e2e:generic-local:" + ref_i, GENERIC_LOCAL_WHAT.get(ref_i, ref_i), {"case": ref_i, "reference_go": a, "llgo": b})
+            # (the closure class carries the key C01 lists it under, so the two entries correlate)
+            gkey = "generic:local-type-in-closure-shared-across-instantiations" if ref_i == "closure" else "e2e:generic-local:" + ref_i
+            ctx.report(gkey, GENERIC_LOCAL_WHAT.get(ref_i, ref_i), {"case": ref_i, "reference_go": a, "llgo": b})
             continue
         if kind == "imethod":
             ctx.report("e2e:imethod-slot-by-name", "a method called through an interface value is not the method a direct call reaches", {"case": ref_i, "reference_go": a, "llgo": b})
